@@ -18,6 +18,12 @@ impl PartialEq for B256 {
     #[verifier::external_body]
     fn eq(&self, other: &Self) -> (r: bool) ensures r == (*self == *other) { unimplemented!() }
 }
+impl B256 {
+    // alloy FixedBytes::is_zero
+    pub uninterp spec fn is_zero_spec(&self) -> bool;
+    #[verifier::external_body]
+    pub fn is_zero(&self) -> (r: bool) ensures r == self.is_zero_spec() { unimplemented!() }
+}
 
 #[verifier::external_body]
 #[derive(Clone, Copy, Eq, Hash)]
